@@ -86,39 +86,6 @@ def oracle(spec, ops):
 
 
 
-def _cast_sensitive_measures(arch, spec, rng):
-    """a float64 measure vector m with index_of_single(m) != index_of_single(float32(m)), or None: bisect between two points of
-    different cells and probe both sides of the crossing at sub-float32-ulp distances"""
-    nd = len(spec["ranges"])
-    pt = lambda: np.array([rng.uniform(lo, hi) for lo, hi in spec["ranges"]], dtype=np.float64)
-    for _ in range(6):
-        a, b = pt(), pt()
-        if rng.random() < 0.7 and nd > 1:           # cross one border only
-            j = rng.randrange(nd)
-            b = np.where(np.arange(nd) == j, b, a)
-        ia, ib = int(arch.index_of_single(a)), int(arch.index_of_single(b))
-        if ia == ib:
-            continue
-        for _ in range(70):
-            mid = (a + b) / 2
-            if np.array_equal(mid, a) or np.array_equal(mid, b):
-                break
-            if int(arch.index_of_single(mid)) == ia:
-                a = mid
-            else:
-                b = mid
-        for base in (a, b):
-            for k in (0, 1, 3, 10, 100, 1000, 100000):
-                m = base + (base - (b if base is a else a)) * k
-                if not all(lo <= x <= hi for x, (lo, hi) in zip(m, spec["ranges"])):
-                    continue
-                i64 = int(arch.index_of_single(m))
-                i32 = int(arch.index_of_single(m.astype(np.float32)))
-                if i64 != i32:
-                    return m
-    return None
-
-
 def wide_input_cases(rep, rng, n):
     """add_single must agree with add on a batch of one ALSO when the caller passes objectives wider than the archive's dtype
     (float64 values into a float32 archive): candidates are placed within a fraction of a float32 ulp around the live threshold."""
@@ -144,7 +111,7 @@ def wide_input_cases(rep, rng, n):
         if rng.random() < 0.5:
             # ... and measures wider than the archive's dtype: a float64 point whose cell differs from the cell of its float32 rounding
             # (found by bisection across a cell border); both paths must judge the cell index_of gives for the caller's values
-            m2 = _cast_sensitive_measures(a1, spec, rng)
+            m2 = au.cast_sensitive_measures(a1, spec, rng)
             if m2 is not None:
                 mea = m2
                 rep.count("wide_measure_cases")
@@ -203,6 +170,24 @@ def check(rep, tier, seed, driver):
         for a, b in st.items():
             rep.count("objective_" + a, b)
         cases.append({"spec": spec, "ops": ops, "ties": st["at_thr"] + st["above"] + st["below"]})
+    # one call with several thousand candidates (implementations that process a batch in blocks must still judge every member
+    # against the pre-call archive): few cells, many members per cell, dyadic objectives
+    for kb in range(1 if tier == "quick" else 4):
+        spec = au.gen_spec(rng, kinds=("grid", "cvt"), cma=(kb % 2 == 1), max_cells=12)
+        spec["extras"] = []
+        gen = lambda r: r.randrange(-64, 65) / 8.0
+        pre = au.gen_history(rng, spec, 2, 4, gen, clear_rate=0.0)
+        nbig = rng.choice([4200, 4700, 8300]) if tier != "quick" else rng.choice([4200, 4700])
+        pool = [au.gen_measures(rng, spec, []) for _ in range(10)]
+        big = [["add", [[0, gen(rng), list(rng.choice(pool))] for _ in range(nbig)], "nd"]]
+        ops = pre + big + au.gen_history(rng, spec, 1, 3, gen, clear_rate=0.0)
+        nid = 1
+        for o in ops:
+            for c in (o[1] if o[0] == "add" else [o[1]] if o[0] == "add_single" else []):
+                c[0] = nid
+                nid += 1
+        cases.append({"spec": spec, "ops": ops, "ties": 1})
+        rep.count("big_batch_cases")
     rep.count("cma_mae_cases", sum(1 for c in cases if c["spec"].get("tmin") is not None))
 
     def compare(spec, ops):
